@@ -346,7 +346,11 @@ afterPublish:
 				}
 			}
 			reach := e.reachable(st, as)
-			e.havocHeap(st)
+			if fc != nil && len(fc.Modifies) > 0 {
+				e.havocHeapOnly(st, fc.Modifies)
+			} else {
+				e.havocHeap(st)
+			}
 			e.havocLeaked(st)
 			if !(fc != nil && fc.PreservesArgs) {
 				e.havocSet(st, reach)
